@@ -55,10 +55,25 @@ func IsComplexExpr(expr string) bool {
 
 // NormalizeComparisonOperators coalesces strict comparison operators (=== and !==) to loose operators (== and !=).
 // This is needed because the underlying expr evaluator supports == and != but not === and !==.
+// Quoted strings are left as they are.
 func NormalizeComparisonOperators(expr string) string {
 	result := make([]byte, 0, len(expr))
+	var quote byte // inside a quoted string the characters are data: 'a===b'
 	for i := 0; i < len(expr); i++ {
-		if i+3 <= len(expr) && expr[i:i+3] == "===" {
+		if c := expr[i]; quote != 0 {
+			if c == '\\' && quote != '`' && i+1 < len(expr) {
+				result = append(result, c, expr[i+1])
+				i++
+				continue
+			}
+			if c == quote {
+				quote = 0
+			}
+			result = append(result, c)
+		} else if c == '\'' || c == '"' || c == '`' {
+			quote = c
+			result = append(result, c)
+		} else if i+3 <= len(expr) && expr[i:i+3] == "===" {
 			result = append(result, '=', '=')
 			i += 2
 		} else if i+3 <= len(expr) && expr[i:i+3] == "!==" {
